@@ -378,7 +378,7 @@ def _ref_truncate(ref, width, overflow, pad):
     return out
 
 
-@_ob("truncate-align", "truncate(width 0..6, overflow in {crop, ellipsis, fold, ignore}, pad) and align(left/center/right, width 0..6) "
+@_ob("truncate-align", "truncate(width 0..6, overflow in {crop, ellipsis, fold, ignore}, pad) followed by an append, and align(left/center/right, width 0..6) "
                        "on the catalogue strings without tab/newline")
 def c05_truncate(e):
     t, ref, n = mk_pre(e)
@@ -397,6 +397,10 @@ def c05_truncate(e):
     while keep < len(want.cells) and keep < len(ref.cells) and want.cells[keep][0] == ref.cells[keep][0]:
         keep += 1
     ok = ok and tags_of(t1)[:keep] == [tg for _, tg in want.cells[:keep]]
+    # a second editing step on the truncated text: what is appended afterwards carries only its own style (no span of the
+    # truncated text may reach beyond its end)
+    t1.append("xy", "t2")
+    ok = ok and t1.plain == want.plain + "xy" and len(t1) == len(want.plain) + 2 and tags_of(t1)[len(want.plain):] == [["t2"], ["t2"]]
     al = ["left", "center", "right"][int(e.mk("align", 0, 2))]
     t2 = t.copy()
     t2.align(al, width)
